@@ -22,7 +22,8 @@ CONSTANTS Variant,      \* "shipped": algorithm of the pinned commit; "fixed": w
           MaxChopped,   \* at most this many chopped nodes (Cover: this many beyond one per family)
           Cover,        \* TRUE: only chop placements that put at least one chop into every family
           AllOrders,    \* TRUE: all insertion orders of the cells, FALSE: catalogue order only
-          PassBound     \* the progress bound on passes of the fix-point loop is PassBound * NB + 2
+          PassBound,    \* the progress bound on passes of the fix-point loop is PassBound * NB + 2
+          Rounds        \* how many times the assembled mesh is graded (written): 1, or 2 = the user writes it again
 
 VARIABLES verts,    \* [1..NB -> [1..8 -> vertex id]]         (configuration; never changes)
           uchops,   \* [Nodes -> Seq(section)] user chops      (configuration; never changes)
@@ -37,10 +38,11 @@ VARIABLES verts,    \* [1..NB -> [1..8 -> vertex id]]         (configuration; ne
           undef,    \* worklist of the fix-point loop
           updated,  \* progress flag of the current pass
           passes,   \* number of passes started (saturating; progress bound)
-          outcome   \* "none" | "Written" | "Undefined" | "Inconsistent"
+          outcome,  \* "none" | "Written" | "Undefined" | "Inconsistent"
+          round     \* 1 | 2: which grade() of the same assembled mesh this is
 
 cfgvars == <<verts, uchops, co, fam>>
-vars == <<verts, uchops, co, fam, chops, axg, wg, phase, pc, todo, undef, updated, passes, outcome>>
+vars == <<verts, uchops, co, fam, chops, axg, wg, phase, pc, todo, undef, updated, passes, outcome, round>>
 
 ---------------------------------------------------------------------------
 \* Topology catalogue: unit cells in an integer lattice, in insertion order
@@ -136,10 +138,14 @@ PropGrade(n, cs) ==
     \E c1 \in Opts(n, 1), c2 \in Opts(n, 2), c3 \in Opts(n, 3), c4 \in Opts(n, 4) :
         wg' = [wg EXCEPT ![n] = <<Pick(n, 1, c1, cs), Pick(n, 2, c2, cs), Pick(n, 3, c3, cs), Pick(n, 4, c4, cs)>>]
 
-\* WireChopManager.grade: the axis grading and every wire get the chops appended
+\* WireChopManager.grade: the axis grading and every wire get the chops appended - to what is left from the previous
+\* grade() at the pinned commit ("shipped"), to empty gradings since the repair ("fixed")
 ChopGrade(n) ==
-    /\ wg' = [wg EXCEPT ![n] = [i \in 1..4 |-> wg[n][i] \o chops[n]]]
-    /\ axg' = [axg EXCEPT ![n] = axg[n] \o chops[n]]
+    IF Variant = "fixed"
+    THEN /\ wg' = [wg EXCEPT ![n] = [i \in 1..4 |-> chops[n]]]
+         /\ axg' = [axg EXCEPT ![n] = chops[n]]
+    ELSE /\ wg' = [wg EXCEPT ![n] = [i \in 1..4 |-> wg[n][i] \o chops[n]]]
+         /\ axg' = [axg EXCEPT ![n] = axg[n] \o chops[n]]
 
 NextPc(p) == IF p[2] < 2 THEN <<p[1], p[2] + 1>> ELSE <<p[1] + 1, 0>>
 
@@ -150,7 +156,7 @@ GradeStep ==
     /\ IF NextPc(pc)[1] > NB
        THEN /\ phase' = "prop" /\ pc' = <<0, 0>> /\ todo' = Blocks
        ELSE /\ phase' = phase /\ pc' = NextPc(pc) /\ todo' = todo
-    /\ UNCHANGED <<cfgvars, chops, undef, updated, passes, outcome>>
+    /\ UNCHANGED <<cfgvars, chops, undef, updated, passes, outcome, round>>
 
 \* one iteration of `for i in undefined_blocks`: pick a block (set iteration order is free)
 StartPass == /\ todo' = undef /\ updated' = FALSE
@@ -168,7 +174,7 @@ VisitBlock(b) ==
        ELSE \* block.copy_grading(): axes 0,1,2 one after another
             /\ pc' = <<b, 0>> /\ todo' = todo \ {b}
             /\ UNCHANGED <<undef, updated, passes, phase>>
-    /\ UNCHANGED <<cfgvars, chops, axg, wg, outcome>>
+    /\ UNCHANGED <<cfgvars, chops, axg, wg, outcome, round>>
 
 \* Axis.copy_grading for node pc inside Block.copy_grading
 CopyAxis ==
@@ -183,7 +189,7 @@ CopyAxis ==
                  /\ IF IsChopMgr(n) THEN FALSE ELSE PropGrade(n, cs)
                  /\ updated' = TRUE
     /\ pc' = IF pc[2] < 2 THEN <<pc[1], pc[2] + 1>> ELSE <<0, 0>>
-    /\ UNCHANGED <<cfgvars, axg, todo, undef, passes, phase, outcome>>
+    /\ UNCHANGED <<cfgvars, axg, todo, undef, passes, phase, outcome, round>>
 
 \* end of the for loop
 EndPass ==
@@ -191,7 +197,7 @@ EndPass ==
     /\ IF updated
        THEN /\ StartPass /\ UNCHANGED <<phase, outcome>>
        ELSE /\ phase' = "done" /\ outcome' = "Undefined" /\ UNCHANGED <<todo, updated, passes>>
-    /\ UNCHANGED <<cfgvars, chops, axg, wg, undef, pc>>
+    /\ UNCHANGED <<cfgvars, chops, axg, wg, undef, pc, round>>
 
 Count(q) == Total(q)
 WrittenCount(n) == IF IsChopMgr(n) THEN Count(axg[n]) ELSE Count(wg[n][1])
@@ -202,9 +208,18 @@ Check ==
     /\ phase' = "done"
     /\ outcome' = IF \A n \in Nodes : NodeConsistent(n) /\ (Variant = "fixed" => CoConsistent(n))
                   THEN "Written" ELSE "Inconsistent"
-    /\ UNCHANGED <<cfgvars, chops, axg, wg, pc, todo, undef, updated, passes>>
+    /\ UNCHANGED <<cfgvars, chops, axg, wg, pc, todo, undef, updated, passes, round>>
 
-Next == GradeStep \/ (\E b \in Blocks : VisitBlock(b)) \/ CopyAxis \/ EndPass \/ Check
+\* the user writes (grades) the same assembled mesh once more: everything the first grade() left behind is still
+\* there - propagated chops, wire and axis gradings - and grade_blocks starts over
+Regrade ==
+    /\ phase = "done" /\ round < Rounds /\ outcome = "Written"
+    /\ round' = round + 1
+    /\ phase' = "grade" /\ pc' = <<1, 0>> /\ todo' = {} /\ undef' = Blocks
+    /\ updated' = FALSE /\ passes' = 0 /\ outcome' = "none"
+    /\ UNCHANGED <<cfgvars, chops, axg, wg>>
+
+Next == GradeStep \/ (\E b \in Blocks : VisitBlock(b)) \/ CopyAxis \/ EndPass \/ Check \/ Regrade
 Done == phase = "done" /\ UNCHANGED vars
 
 ---------------------------------------------------------------------------
@@ -247,7 +262,7 @@ Init ==
     /\ axg = [m \in Nodes |-> <<>>]
     /\ wg = [m \in Nodes |-> [i \in 1..4 |-> <<>>]]
     /\ phase = "grade" /\ pc = <<1, 0>> /\ todo = {} /\ undef = Blocks
-    /\ updated = FALSE /\ passes = 0 /\ outcome = "none"
+    /\ updated = FALSE /\ passes = 0 /\ outcome = "none" /\ round = 1
 
 Spec == Init /\ [][Next]_vars /\ WF_vars(Next)
 \* configurations only (for emission to the replay harness)
@@ -259,11 +274,11 @@ ASSUME (RotChoice \cup Rot1Choice) \subseteq RotIdx
 
 TypeOK == /\ phase \in {"grade", "prop", "check", "done"}
           /\ outcome \in {"none", "Written", "Undefined", "Inconsistent"}
-          /\ undef \subseteq Blocks /\ todo \subseteq Blocks
+          /\ undef \subseteq Blocks /\ todo \subseteq Blocks /\ round \in 1..Rounds
 
 \* C02: progress bound (termination of the fix-point loop)
 PassBoundOK == passes <= PassBound * NB + 2
-Terminates == <>(phase = "done")
+Terminates == <>(phase = "done" /\ (round = Rounds \/ outcome # "Written"))
 
 \* C01/C02: the outcome is the declarative one
 OutcomeOK ==
@@ -303,7 +318,7 @@ CfgRecord ==
       expected |-> Expected,
       multilaw |-> MultiLaw,
       counts |-> IF Expected = "Written" THEN [b \in Blocks |-> [a \in 1..3 |-> FamCount(<<b, a - 1>>)]] ELSE <<>>,
-      nfam |-> Cardinality(Families) ]
-EmitCfg == (phase = "grade" /\ pc = <<1, 0>>) => PrintT(ToJson(CfgRecord))
-InitOnly == phase = "grade" /\ pc = <<1, 0>>
+      nfam |-> Cardinality(Families), rounds |-> Rounds ]
+EmitCfg == (phase = "grade" /\ pc = <<1, 0>> /\ round = 1) => PrintT(ToJson(CfgRecord))
+InitOnly == phase = "grade" /\ pc = <<1, 0>> /\ round = 1
 =============================================================================
